@@ -1399,6 +1399,18 @@ class SliceSubsetState(SubsetState):
                 # Reorder slices
                 slices = [self.slices[idx] for idx in order]
 
+        # The code below assumes that the slices have a positive step, so we
+        # replace any slice that has a negative step by the slice with a
+        # positive step that selects the same elements.
+        slices = list(slices)
+        for i, slc in enumerate(slices):
+            if isinstance(slc, slice) and slc.step is not None and slc.step < 0:
+                indices = range(*slc.indices(data.shape[i]))
+                if len(indices) == 0:
+                    slices[i] = slice(0, 0)
+                else:
+                    slices[i] = slice(indices[-1], indices[0] + 1, -slc.step)
+
         # Note that for views that contain arrays, the arrays don't have to come
         # first, e.g. IndexedData combines them with its integer indices.
         if (isinstance(view, np.ndarray) or
